@@ -1187,6 +1187,21 @@ func c08_7(c *core.Ctx, p *core.Prog) {
 			progressNote = ""
 			c.Check(kind != "", key, pos, core.FuncName(fn), "schema update requested together with: "+kind,
 				"a schema update is requested on a path that changes nothing the rebuild depends on (no optional mark removed, no index width advanced, dictionary not disabled, no metadata change, no one-shot latch): the rebuild loop re-runs the same deterministic code, requests the same update again and ends in the 'Too many consecutive schema updates' panic"+note)
+			// a request that sits in a package-level helper stands for each of the helper's call sites
+			if fn.Parent() == nil && fn.Signature.Recv() == nil && fn.Object() != nil && !fn.Object().Exported() {
+				sites := 0
+				for _, g := range rootFuncs(c, p) {
+					if core.FnPkgPath(g) != core.FnPkgPath(fn) {
+						continue
+					}
+					core.EachCall(g, func(ci ssa.CallInstruction) {
+						if ci.Common().StaticCallee() == fn {
+							sites++
+						}
+					})
+				}
+				c.LastCovers(sites)
+			}
 		})
 	}
 }
